@@ -176,6 +176,12 @@ class C13(Prop):
             if arg != "buf" and not re.search(r"verif_add_message_hook \(who, %s, [01], 1\);" % re.escape(arg), src[max(0, pos - 500):pos]):
                 raise X.TieBroken("hook:output snoop", "the receive_snoop (%s, ..) call of src/comm.c is not announced by verif_add_message_hook (.., 1): "
                                   "harness/c13/c13.c would take it for the input-side snoop callback" % arg)
+        # receive_snoop(): under safe_apply (4a7340a: a snooper error is reported, the caller goes on) or plain apply
+        # (the error unwinds through the caller); the model follows whichever the source has
+        ms = re.findall(r"static void receive_snoop \(char \*buf, object_t \* snooper\) \{.*?\n  (safe_apply|apply) \(APPLY_RECEIVE_SNOOP, snooper, 1, ORIGIN_DRIVER\);", src, re.S)
+        if len(ms) != 1:
+            raise X.TieBroken("guard:receive_snoop apply", "cannot tell whether receive_snoop() of src/comm.c calls the snooper through apply or safe_apply (matched %r)" % (ms,))
+        out.append("/-- C: receive_snoop() calls the snooper's receive_snoop() through safe_apply (errors are caught there) -/\ndef snoopSafeApply : Bool := %s" % ("true" if ms[0] == "safe_apply" else "false"))
         wsrc = open(os.path.join(E.REPO, "lib/async/console_worker.c"), errors="replace").read()
         ms = re.findall(r"read\(STDIN_FILENO, line_buffer, CONSOLE_MAX_LINE - (\d+)\)", wsrc)
         if len(ms) != 1 or wsrc.count("char line_buffer[CONSOLE_MAX_LINE];") < 1 or wsrc.count("line_buffer[bytes_read] = '\\0';") != 1 \
